@@ -626,6 +626,7 @@ func families(tier string) []fw.Family {
 		ellFam,
 		curvedCCW,
 		crescentFamily(),
+		hullFillingFamily(),
 		cubicFam,
 		flatFam("tri(L4)/rot closed", tri4, false),
 		flatFam("quad(L3) closed", quad3, false),
